@@ -254,6 +254,30 @@ func raceScenarios() []raceScenario {
 		vsched.Go("closer", func() { t.w.Svr.Close() })
 		vsched.Quiesce()
 	}, false})
+	// (viii) a connection is cut and its successor with the same client id connects at
+	// once (persistent session, so both share the session object for a moment)
+	out = append(out, raceScenario{"cut || successor resumes the session", func() {
+		t := newTD()
+		p := t.connect("P", 0, 65535, false)
+		x1, err := t.w.Dial("X1")
+		if err != nil {
+			return
+		}
+		x1.Send(ConnectPacket(ConnectOpts{ClientID: "x", Clean: false, KeepAlive: 600, Will: &Will{"w/x", "first", 1, false}}))
+		t.w.Settle()
+		x1.Send(&refcodec.Packet{Type: refcodec.SUBSCRIBE, ID: 3, Topics: [][]byte{[]byte("a")}, QoSs: []byte{1}})
+		t.w.Settle()
+		x2, err := t.w.Dial("X2")
+		if err != nil || vsched.Failed() {
+			return
+		}
+		vsched.Mark()
+		p.rc.Conn.Write(refcodec.Encode(&refcodec.Packet{Type: refcodec.PUBLISH, Topic: []byte("a"), QoS: 1, ID: 7, Payload: []byte("m")}))
+		x1.Cut()
+		x2.Conn.Write(append(refcodec.Encode(ConnectPacket(ConnectOpts{ClientID: "x", Clean: false, KeepAlive: 600, Will: &Will{"w/x", "second", 0, false}})),
+			refcodec.Encode(&refcodec.Packet{Type: refcodec.SUBSCRIBE, ID: 4, Topics: [][]byte{[]byte("b")}, QoSs: []byte{0}})...))
+		vsched.Quiesce()
+	}, false})
 	return out
 }
 
